@@ -502,3 +502,74 @@ func TestProp_C10_Interop(t *testing.T) {
 		sim.Judge(rt, "C10interop", sc)
 	})
 }
+
+// ---- C10: every fragment size, judged by the reference's reassembly ----
+
+// FragSweepCase: one session; the same short text is sent once for every fragment size in [From, To].
+type FragSweepCase struct {
+	V    int `json:"v"`
+	From int `json:"from"`
+	To   int `json:"to"`
+	L    int `json:"l"`
+}
+
+func runC10FragSweep(c *FragSweepCase) *sim.Outcome {
+	o := &sim.Outcome{}
+	m := newMix(SessCfg{V: c.V, SeedA: 1010, SeedB: 1061, KeyA: 0, KeyB: 3}, 0)
+	if !m.Establish(0) {
+		o.Discard = true
+		return o
+	}
+	n := 0
+	for f := c.From; f <= c.To && o.Violation == ""; f++ {
+		m.A.C.SetFragmentSize(uint16(f))
+		n++
+		text := append([]byte(token(0, n)), filler(0, c.L, n)...)
+		call := m.ASend(text)
+		if call.Err != nil {
+			return o.Fail("C10/interop-send", "Send with fragment size %d failed: %v", f, call.Err)
+		}
+		pieces := len(call.Out)
+		var got []byte
+		m.Settle(nil, func(p []byte, err error) {
+			if err != nil && o.Violation == "" {
+				o.Fail("C10/interop-ref-rejects", "fragment size %d (%d pieces): the reference implementation, reassembling as the specification says, rejected what otr3 sent: %v", f, pieces, err)
+			}
+			if p != nil {
+				got = p
+			}
+		})
+		if o.Violation == "" && !bytes.Equal(got, text) {
+			return o.Fail("C10/interop-fragments", "fragment size %d (%d pieces): the reference reassembled and read %.40q instead of the text sent", f, pieces, got)
+		}
+		if pieces > 1 {
+			o.Class("fragmented")
+		}
+	}
+	o.NonTrivial = true
+	return o
+}
+
+func init() { reg("C10fragsweep", runC10FragSweep) }
+
+func TestProp_C10_FragSweep(t *testing.T) {
+	si, sn := sim.Shard()
+	idx := 0
+	for _, v := range []int{3, 2} {
+		for _, l := range []int{0, 37} {
+			// from the smallest size that leaves room for a payload byte to beyond the whole encoded message
+			lo, hi := minFrag(v), 800
+			for from := lo; from <= hi; from += 60 {
+				idx++
+				if idx%sn == si {
+					to := from + 59
+					if to > hi {
+						to = hi
+					}
+					sim.Judge(t, "C10fragsweep", &FragSweepCase{V: v, From: from, To: to, L: l})
+				}
+			}
+		}
+	}
+	sim.MarkCompleted("C10fragsweep", true)
+}
